@@ -125,6 +125,14 @@ def payload_cases(r, tier):
             st = ["fdstage p0 w%d" % N] + ["fdstage p%d c" % (i + 1) for i in range(relays)] + ["fdstage p%d x7" % (relays + 1)]
             items = [("P", " | ".join(st)), ("P", "fdstage q0 P S$?")]
             cases.append(fdsess.make_case(items, meta={"payload": N, "noreader": True}))
+    # a stage that cannot be started (its `< file` cannot be opened, or the program is not found) behind a writer of several pipe
+    # buffers, last and in the middle: the writer must be woken up, the pipeline must end
+    for N in ([300000] if tier == "quick" else [70000, 300000, 1000000]):
+        for bad in ("fdstage p1 c < missing", "nosuchprog x"):
+            items = [("P", "fdstage p0 w%d | %s" % (N, bad)), ("P", "fdstage q0 P S$?")]
+            cases.append(fdsess.make_case(items, meta={"payload": N, "noreader": True}))
+            items = [("P", "fdstage p0 w%d | %s | fdstage p2 R" % (N, bad)), ("P", "fdstage q0 P S$?")]
+            cases.append(fdsess.make_case(items, meta={"payload": N, "noreader": True}))
     return cases
 
 
